@@ -7,12 +7,14 @@
 #include <string.h>
 #include <stdlib.h>
 
-enum { OP_FAST_OVER, OP_GENERAL_ATOP, OP_SAME_TWICE, OP_FILL, OP_REGION, OP_TRAP, OP_SHARED_SRC, OP_GRADIENT, OP_SHARED_GRADIENT, OP_SHARED_CLIPPED_SRC, OP_SHARED_ACCESSOR_SRC, OP_TILE_FILL, N_BODY_OPS };
+enum { OP_FAST_OVER, OP_GENERAL_ATOP, OP_SAME_TWICE, OP_FILL, OP_REGION, OP_TRAP, OP_SHARED_SRC, OP_GRADIENT, OP_SHARED_GRADIENT, OP_SHARED_CLIPPED_SRC, OP_SHARED_ACCESSOR_SRC, OP_TILE_FILL, OP_SHARED_TILE_SRC, OP_SHARED_TILE_MASK, N_BODY_OPS };
 static const char *body_op_name[N_BODY_OPS] = { "fast-path OVER 8888->8888", "general-path ATOP 8888->0565", "same ADD composite twice (cache hit)", "pixman_fill + fill_rectangles",
                                                 "region32 union/subtract", "rasterize_trapezoid a8", "OVER from the shared source", "linear gradient SRC (general iterators)", "SRC from the shared 4-stop gradient (per-thread origin)",
                                                 "OVER from the shared source that has a two-box client clip with source clipping (per-thread offset)",
                                                 "OVER from the shared source that is read through accessor callbacks",
-                                                "pixman_fill into the thread's own columns of a buffer whose other columns belong to other threads (8 and 16 bpp, tiles not word-aligned)" };
+                                                "pixman_fill into the thread's own columns of a buffer whose other columns belong to other threads (8 and 16 bpp, tiles not word-aligned)",
+                                                "SRC from the shared 32x2 REPEAT_NORMAL tile onto a 40-pixel-wide private destination (tiled-repeat path)",
+                                                "solid IN the shared 32x2 REPEAT_NORMAL tile as mask, origin 29 (wraps)" };
 
 #define TILE_STRIDE_WORDS 20
 #define DW 3
@@ -25,7 +27,8 @@ typedef struct {
     pixman_image_t *dst32, *dst16, *dst8, *src32, *grad;
     pixman_region32_t reg;
     /* shared, read-only after its first use on the main thread */
-    pixman_image_t *shared_src, *shared_grad, *shared_clipped, *shared_acc;
+    pixman_image_t *shared_src, *shared_grad, *shared_clipped, *shared_acc, *shared_tile;
+    uint32_t dwide[2][40]; pixman_image_t *dstwide;
     uint32_t *tile8, *tile16; int tile_ix;       /* one buffer for all threads: 2 rows of TILE_STRIDE_WORDS words; the thread with tile index k owns columns [1+3k, 4+3k) (8 bpp) / [1+2k, 3+2k) (16 bpp) */
     int tid;
     uint64_t digest;
@@ -71,6 +74,15 @@ static pixman_image_t *body_make_shared_acc(uint32_t *pix)
     return s;
 }
 
+/* a shared REPEAT_NORMAL tile wide enough (32 pixels) for the tiled-repeat whole-operation path to use it in place */
+static pixman_image_t *body_make_shared_tile(uint32_t *pix)
+{
+    for (int i = 0; i < 64; i++) pix[i] = 0xff000000u | ((unsigned)i * 0x00030507u);
+    pixman_image_t *s = pixman_image_create_bits(PIXMAN_a8r8g8b8, 32, 2, pix, 128);
+    pixman_image_set_repeat(s, PIXMAN_REPEAT_NORMAL);
+    return s;
+}
+
 static void body_setup(tctx_t *t, int tid, pixman_image_t *shared_src)
 {
     memset(t, 0, sizeof *t);
@@ -88,12 +100,14 @@ static void body_setup(tctx_t *t, int tid, pixman_image_t *shared_src)
     pixman_point_fixed_t p1 = { 0, 0 }, p2 = { pixman_int_to_fixed(DW), pixman_int_to_fixed(DH) };
     pixman_gradient_stop_t stops[2] = { { 0, { 0xffff, (uint16_t)(0x1000 * tid), 0, 0xffff } }, { 0x10000, { 0, 0x8000, 0xffff, 0x8000 } } };
     t->grad = pixman_image_create_linear_gradient(&p1, &p2, stops, 2);
+    for (int i = 0; i < 80; i++) t->dwide[0][i] = 0x40201008u * (unsigned)(tid + 1) + (unsigned)i * 0x00010203u;
+    t->dstwide = pixman_image_create_bits(PIXMAN_a8r8g8b8, 40, 2, &t->dwide[0][0], 160);
     pixman_region32_init_rect(&t->reg, tid, 0, 4, 3);
     t->shared_src = shared_src;
 }
 static void body_teardown(tctx_t *t)
 {
-    pixman_image_unref(t->dst32); pixman_image_unref(t->dst16); pixman_image_unref(t->dst8); pixman_image_unref(t->src32); pixman_image_unref(t->grad);
+    pixman_image_unref(t->dst32); pixman_image_unref(t->dst16); pixman_image_unref(t->dst8); pixman_image_unref(t->src32); pixman_image_unref(t->grad); pixman_image_unref(t->dstwide);
     pixman_region32_fini(&t->reg);
 }
 
@@ -127,6 +141,12 @@ static void body_run(tctx_t *t, int op)
     case OP_SHARED_GRADIENT:
         /* several threads read one gradient image (validated by its first use on the main thread) at different origins */
         pixman_image_composite32(PIXMAN_OP_SRC, t->shared_grad, NULL, t->dst32, 3 * t->tid, 0, 0, 0, 0, 0, DW, DH); break;
+    case OP_SHARED_TILE_SRC:
+        pixman_image_composite32(PIXMAN_OP_SRC, t->shared_tile, NULL, t->dstwide, 5 * t->tid, 0, 0, 0, 0, 0, 40, 1); break;      /* row 0 of the private destination */
+    case OP_SHARED_TILE_MASK: {
+        pixman_color_t c = { 0xffff, 0x8000, 0x4000, 0xffff }; pixman_image_t *solid = pixman_image_create_solid_fill(&c);
+        pixman_image_composite32(PIXMAN_OP_IN, solid, t->shared_tile, t->dstwide, 0, 0, 29, t->tid & 1, 0, 1, 40, 1);            /* row 1: the two operations do not overwrite each other */
+        pixman_image_unref(solid); break; }
     case OP_TILE_FILL:
         pixman_fill(t->tile8, TILE_STRIDE_WORDS, 8, 1 + 3 * t->tile_ix, 0, 3, 2, 0x11u * (unsigned)(t->tid + 1) * 0x01010101u);
         pixman_fill(t->tile16, TILE_STRIDE_WORDS, 16, 1 + 2 * t->tile_ix, 0, 2, 2, (0x1111u * (unsigned)(t->tid + 3)) * 0x00010001u); break;
@@ -141,6 +161,7 @@ static void body_run(tctx_t *t, int op)
 static uint64_t body_digest(tctx_t *t)
 {
     uint64_t h = body_hash(t->d32, sizeof t->d32, 1);
+    h = body_hash(t->dwide, sizeof t->dwide, h);
     h = body_hash(t->d16, sizeof t->d16, h); h = body_hash(t->d8, sizeof t->d8, h);
     if (t->tile8) for (int y = 0; y < 2; y++) { h = body_hash((const uint8_t *)t->tile8 + y * TILE_STRIDE_WORDS * 4 + 1 + 3 * t->tile_ix, 3, h); h = body_hash((const uint16_t *)t->tile16 + y * TILE_STRIDE_WORDS * 2 + 1 + 2 * t->tile_ix, 4, h); }
     int n; pixman_box32_t *b = pixman_region32_rectangles(&t->reg, &n);
